@@ -66,3 +66,9 @@ CASES += [
     {"name": "hierarchy bound to a local before it is returned", "kind": "twin", "edits": [
         (OSY, "        return KTHierarchy(HH, sbi, depth=depth)", "        hy = KTHierarchy(HH, sbi, depth)\n        return hy", 1)]},
 ]
+
+SBI = "quantarhei/qm/liouvillespace/systembathinteraction.py"
+CASES += [
+    {"name": "reorganisation-energy getter counts baths from one", "kind": "mutant", "rule": "C16-G", "edits": [
+        (SBI, "            return self.CC.get_reorganization_energy(i,j)", "            return self.CC.get_reorganization_energy(i-1,j-1)", 1)]},
+]
